@@ -135,9 +135,11 @@ class NestMeter:
 # one case = recipe + configuration
 # ---------------------------------------------------------------------------------------------
 class C20Case:
-    def __init__(self, recipe, version, app, ss, fp, subs=None):
+    def __init__(self, recipe, version, app, ss, fp, subs=None, assemble=False, reserved=None):
         self.recipe, self.version, self.app, self.ss, self.fp = recipe, version, app, ss, fp
         self.subs = subs or []            # [(key, name, ret, kinds, body)]
+        self.assemble = assemble          # compileTeal(..., assembleConstants=True): real compiler only (no model of the constant blocks here)
+        self.reserved = reserved or {}    # symbolic slot -> requested slot id
         self.builder = None
         self.expr = None
         self.build = None                 # real_call dict of construction
@@ -150,11 +152,12 @@ class C20Case:
         self.shape = None
 
     def key(self):
-        return (repr(self.recipe), repr(self.subs), self.version, self.app, self.ss, self.fp)
+        return (repr(self.recipe), repr(self.subs), self.version, self.app, self.ss, self.fp, self.assemble, repr(sorted(self.reserved.items(), key=repr)))
 
     def describe(self):
         d = {"recipe": repr(self.recipe), "version": self.version, "mode": "app" if self.app else "sig",
-             "scratch_slots": self.ss, "frame_pointers": self.fp,
+             "scratch_slots": self.ss, "frame_pointers": self.fp, "assemble_constants": self.assemble,
+             "reserved": [[repr(k), v] for k, v in self.reserved.items()],
              "subs": [[k, n, r, kd, repr(b)] for (k, n, r, kd, b) in self.subs]}
         if self.build is not None and self.build["outcome"] != "ok":
             d["construction"] = {k: v for k, v in self.build.items() if k != "value"}
@@ -177,6 +180,8 @@ def run_case(pt, model, c, measure=False, timeout=20.0, ask_model=True):
     c.builder = b
 
     def build():
+        for k_, v_ in c.reserved.items():
+            b.request_slot(k_, v_)
         prepare_of(c.subs)(b)
         return b.build(c.recipe)
     c.build = real_call(pt, build, timeout)
@@ -194,7 +199,7 @@ def run_case(pt, model, c, measure=False, timeout=20.0, ask_model=True):
                 return c
 
     def comp():
-        return pt.compileTeal(c.expr, mode_of(pt, c.app), version=c.version, optimize=optimize_of(pt, c.ss, c.fp))
+        return pt.compileTeal(c.expr, mode_of(pt, c.app), version=c.version, optimize=optimize_of(pt, c.ss, c.fp), assembleConstants=c.assemble)
     c.base_depth = stack_depth()
     if measure:
         with NestMeter([pt.TealBlock.addIncoming.__code__]) as m:
@@ -204,7 +209,7 @@ def run_case(pt, model, c, measure=False, timeout=20.0, ask_model=True):
         c.realx = real_call(pt, comp, timeout)
     o = c.realx["outcome"]
     c.real = ("ok", c.realx["value"]) if o == "ok" else ("exc", c.realx.get("exc", "Timeout"), c.realx.get("msg", ""))
-    if ask_model:
+    if ask_model and not c.assemble:
         c.wire_prog = b.wire_prog(c.recipe)
         c.wire_opts = wire_opts(c.version, c.app, c.ss, c.fp)
         if measure and not c.subs:
@@ -484,7 +489,7 @@ def shrink(pt, model, c, same, budget=250):
             budget -= 1
             if budget <= 0:
                 break
-            c2 = C20Case(cand, best.version, best.app, best.ss, best.fp, best.subs)
+            c2 = C20Case(cand, best.version, best.app, best.ss, best.fp, best.subs, assemble=best.assemble, reserved=best.reserved)
             run_case(pt, model, c2, ask_model=False, timeout=10)
             if c2.realx is not None and same(c2):
                 best = c2
@@ -640,6 +645,20 @@ class Run:
                 self.crashes.append((c, "compile", origin))
             return
         # TEAL or PyTeal error
+        if c.assemble:
+            # no model of the constant blocks here: assembleConstants must not change the outcome class (below version 3 an
+            # otherwise accepted program is refused with the documented TealInternalError)
+            base = run_case(self.pt, self.model, C20Case(c.recipe, c.version, c.app, c.ss, c.fp, c.subs, reserved=c.reserved), ask_model=False)
+            if base.realx is not None and base.realx["outcome"] in ("ok", "pyteal"):
+                want = real_class(base)
+                if want == "ok" and c.version < 3:
+                    want = "TealInternalError"
+                if rc != want:
+                    c.model = [S("expected-from-compile-without-assembleConstants"), want]
+                    self.mismatch.append(c)
+                    if want == "ok":
+                        self.accept_fail.append(c)
+            return
         if mc not in ("unsupported", "?"):
             if rc != mc:
                 self.mismatch.append(c)
@@ -722,6 +741,8 @@ def stream_ctrl(run, thorough, k, n):
         r = gen_ctrl_program(rng)
         version, app, ssv, fpv = random_case_params(rng)
         run.consider(run_case(pt, model, C20Case(r, version, app, ssv, fpv), measure=(i % 3 == 0)), "ctrl")
+        if i % 2 == 0:
+            run.consider(run_case(pt, model, C20Case(r, version, app, ssv, fpv, assemble=True)), "ctrl+assembleConstants")
 
 
 def stream_random(run, thorough, k, n):
@@ -740,6 +761,8 @@ def stream_random(run, thorough, k, n):
             run.hist[kk] = run.hist.get(kk, 0) + vv
         c = run_case(pt, model, C20Case(r, version, app, ssv, fpv), measure=(i % 4 == 0))
         run.consider(c, "random")
+        if i % 2 == 1:
+            run.consider(run_case(pt, model, C20Case(r, version, app, ssv, fpv, assemble=True)), "random+assembleConstants")
         if c.realx is not None and c.realx["outcome"] == "ok":
             ck.sample({"recipe": repr(r)[:300], "version": version, "mode": "app" if app else "sig", "teal_lines": len(c.realx["value"].split("\n"))}, limit=3)
         # the same program, made ill-typed / malformed at one position: must be refused with a PyTeal error
@@ -780,12 +803,57 @@ def stream_subs(run, thorough, k, n):
         run.consider(run_case(pt, model, C20Case(main_r, version, app, ssv, fpv, subs)), "subs")
 
 
-STREAMS = [("small", stream_small), ("ctrl", stream_ctrl), ("random", stream_random), ("subs", stream_subs)]
+SLOT_MIXTURES = [(246, 10), (255, 1), (0, 129), (128, 128), (200, 56), (0, 256), (1, 255), (100, 3),        # within the 256-slot limit
+                 (247, 10), (256, 1), (129, 128), (201, 56), (257, 0)]                                       # one slot too many
+
+
+def slot_mixture_case(k_auto, r_res, layout, version, in_sub, dup=False):
+    """k automatic variables and r variables with requested ids, each stored once (2 blocks per store: below the recursion limit);
+    layout: requested ids from 0 up, from 255 down, or every other id; in_sub: half of the stores live in a subroutine"""
+    if layout == "low":
+        ids = list(range(r_res))
+    elif layout == "high":
+        ids = [255 - j for j in range(r_res)]
+    else:
+        ids = [(2 * j) % 256 + (1 if 2 * j >= 256 else 0) for j in range(r_res)]
+    if dup and len(ids) >= 2:
+        ids[1] = ids[0]
+    reserved = {"r%d" % j: ids[j] for j in range(r_res)}
+    keys = ["a%d" % j for j in range(k_auto)] + list(reserved)
+    # interleave so that reserved and automatic slots alternate in first-use order
+    keys = keys[::2] + keys[1::2]
+    stores = [st(kk, I(n_)) for n_, kk in enumerate(keys)]
+    if in_sub:
+        half = len(stores) // 2
+        subs = [("h", "helper", "n", "", ("seq",) + tuple(stores[half:]))]
+        main = ("seq",) + tuple(stores[:half]) + (("call", "h", ()), APPROVE)
+        return C20Case(main, version, True, None, None, subs, reserved=reserved)
+    return C20Case(("seq",) + tuple(stores) + (APPROVE,), version, True, None, None, reserved=reserved)
+
+
+def stream_slots(run, thorough, k, n):
+    """the 256-slot limit with mixtures of automatic and requested slot ids, against the model's verdict"""
+    pt, model = run.pt, run.model
+    idx = 0
+    for (ka, rr) in SLOT_MIXTURES:
+        for layout in (("low", "high", "spread") if thorough else ("low", "spread")):
+            for version, in_sub in (((6, False), (9, False), (6, True), (9, True), (4, True), (3, False)) if thorough else ((6, False), (9, True))):
+                idx += 1
+                if idx % n != k:
+                    continue
+                run.consider(run_case(pt, model, slot_mixture_case(ka, rr, layout, version, in_sub), timeout=60), "slots")
+    if k == 0:
+        run.consider(run_case(pt, model, slot_mixture_case(10, 4, "low", 6, False, dup=True)), "slots")
+        run.consider(run_case(pt, model, slot_mixture_case(10, 4, "high", 9, True, dup=True)), "slots")
+
+
+STREAMS = [("slots", stream_slots), ("small", stream_small), ("ctrl", stream_ctrl), ("random", stream_random), ("subs", stream_subs)]
 
 
 def case_ref(c, origin, well_formed=True, where=None):
     return {"recipe": repr(c.recipe), "version": c.version, "app": c.app, "ss": c.ss, "fp": c.fp,
             "subs": [[kk, nm, r_, kd, repr(bd)] for (kk, nm, r_, kd, bd) in c.subs], "origin": origin, "well_formed": well_formed, "where": where,
+            "assemble": c.assemble, "reserved": [[repr(kk), vv] for kk, vv in c.reserved.items()],
             "build": ({kk: vv for kk, vv in c.build.items() if kk != "value"} if (c.build and c.build.get("outcome") != "ok") else None)}
 
 
@@ -872,7 +940,8 @@ def merge_shards(run, procs, n, thorough):
         refs.sort(key=lambda r_: len(r_["recipe"]))
         for ref in refs[:(40 if not thorough else 80)]:
             subs = [(kk, nm, r_, kd, eval(bd)) for (kk, nm, r_, kd, bd) in ref["subs"]]
-            c = C20Case(eval(ref["recipe"]), ref["version"], ref["app"], ref["ss"], ref["fp"], subs)
+            c = C20Case(eval(ref["recipe"]), ref["version"], ref["app"], ref["ss"], ref["fp"], subs, assemble=ref.get("assemble", False),
+                        reserved={eval(kk): vv for kk, vv in ref.get("reserved", [])})
             if ref.get("where") == "sub-definition":
                 c.build = ref["build"]
                 run.crashes.append((c, "sub-definition", ref["origin"]))
@@ -894,6 +963,158 @@ def pv_is_current(name):
     h.update(open(os.path.join(OCAML, "build.sh"), "rb").read())
     stamp = os.path.join(OCAML, "_build", name + ".stamp")
     return os.path.exists(os.path.join(OCAML, "pv_" + name)) and os.path.exists(stamp) and open(stamp).read() == h.hexdigest()
+
+
+# ---------------------------------------------------------------------------------------------
+# constant-dense programs with template constants (Tmpl is outside the recipe language: built directly from a JSON spec)
+# ---------------------------------------------------------------------------------------------
+VALID_ADDRS = ["AAAAAAAAAAAAAAAAAAAAAAAAAAAAAAAAAAAAAAAAAAAAAAAAAAAAY5HFKQ", "AAAQEAYEAUDAOCAJBIFQYDIOB4IBCEQTCQKRMFYYDENBWHA5DYP7MUPJQE"]
+
+
+def bad_checksum_addr_class(spec, x):
+    """class predicate of the finding addr-bad-checksum-assemble-crash"""
+    inner = [f[1] for f in ((x.get("tb") or {}).get("inner") or [])]
+    return x.get("exc") == "WrongChecksumError" and "extractAddrValue" in inner and \
+        any(c_[0] == "addr" and c_[1] not in VALID_ADDRS for _, c_ in spec)
+
+
+def gen_const_spec(rng, version=6):
+    """5-10 distinct integers and 3-8 distinct byte strings, each used 1-6 times, small (< 128) and large values mixed, with
+    template integers / byte strings / addresses among them, in shuffled order (frequency ranks and first-seen order vary)"""
+    ints = rng.sample([0, 1, 2, 3, 5, 7, 100, 127, 128, 129, 255, 256, 1000, 1001, 1002, 1003, 65536, (1 << 32) + 1, (1 << 63), (1 << 64) - 1], rng.randrange(5, 11))
+    consts = [["int", v] for v in ints]
+    for j in range(rng.choice([0, 1, 1, 2, 3])):
+        consts.append(["tint", "TMPL_I%d" % j])
+    bs = rng.sample(["", "00", "01", "ff", "deadbeef", "00" * 32, "ab" * 8, "0102030405", "7f", "80", "aa" * 33, "6869"], rng.randrange(3, 9))
+    consts += [["bytes", h] for h in bs]
+    for j in range(rng.choice([0, 1, 1, 2])):
+        consts.append(["tbytes", "TMPL_B%d" % j])
+    if rng.random() < 0.5:
+        consts.append(["taddr", "TMPL_ADDR"])
+    if rng.random() < 0.45:
+        consts.append(["addr", rng.choice(VALID_ADDRS)])
+    if rng.random() < 0.08:
+        consts.append(["addr", "A" * 58])         # well-formed length and alphabet, wrong checksum (accepted by Addr(): finding of C13)
+    if rng.random() < 0.3:
+        consts.append(["enum", rng.choice(["NoOp", "OptIn", "DeleteApplication"])])
+    uses = []
+    for c_ in consts:
+        uses += [c_] * rng.choice([1, 1, 2, 2, 3, 4, 6])
+    rng.shuffle(uses)
+    # a few uses sit inside expressions / branches instead of a bare Pop
+    spec = []
+    for u in uses:
+        spec.append([rng.choice(["pop", "pop", "pop", "cmp", "if", "sub"] if version >= 4 else ["pop", "pop", "pop", "cmp", "if"]), u])
+    return spec
+
+
+def build_const_spec(pt, spec):
+    Int, Bytes, Pop, Seq, If = pt.Int, pt.Bytes, pt.Pop, pt.Seq, pt.If
+    box = {}
+
+    def const(c_):
+        k_, v_ = c_
+        if k_ == "int":
+            return Int(v_), "u"
+        if k_ == "tint":
+            return pt.Tmpl.Int(v_), "u"
+        if k_ == "bytes":
+            return Bytes("base16", v_), "b"
+        if k_ == "tbytes":
+            return pt.Tmpl.Bytes(v_), "b"
+        if k_ == "taddr":
+            return pt.Tmpl.Addr(v_), "b"
+        if k_ == "addr":
+            return pt.Addr(v_), "b"
+        return getattr(pt.OnComplete, v_), "u"
+
+    def helper():
+        if "f" not in box:
+            @pt.Subroutine(pt.TealType.none, name="drop")
+            def drop(x):
+                return Pop(x)
+            box["f"] = drop
+        return box["f"]
+    stmts = []
+    for how, c_ in spec:
+        e, t = const(c_)
+        if how == "pop":
+            stmts.append(Pop(e))
+        elif how == "cmp":
+            e2, _ = const(c_)
+            stmts.append(Pop(e == e2) if t == "u" else Pop(pt.Len(e)))
+        elif how == "if":
+            stmts.append(If(pt.Txn.fee() > Int(7), Pop(e), Pop(Int(7))))
+        else:
+            stmts.append(helper()(e) if t == "u" else Pop(e))
+    return Seq(*stmts, pt.Approve())
+
+
+def spec_uses_sub(spec):
+    return any(how == "sub" and c_[0] in ("int", "tint", "enum") for how, c_ in spec)
+
+
+def compile_const_spec(pt, spec, version, app, assemble, api):
+    def go():
+        e = build_const_spec(pt, spec)
+        mode = pt.Mode.Application if app else pt.Mode.Signature
+        if api == "Compilation":
+            return pt.Compilation(e, mode, version=version, assemble_constants=assemble).compile().teal
+        return pt.compileTeal(e, mode, version=version, assembleConstants=assemble)
+    return real_call(pt, go)
+
+
+def stream_consts(run, thorough):
+    """real compiler only: assembleConstants / Compilation(assemble_constants=True) must not crash and must not change the outcome class"""
+    pt, ck = run.pt, run.ck
+    stats, bad = {}, {}
+    for i in range(3000 if thorough else 320):
+        rng = rng_of("consts", i)
+        version = rng.choice([2, 3, 3, 4, 5, 6, 7, 8, 9, 10])
+        spec = gen_const_spec(rng, version)
+        app = rng.random() < 0.6
+        base = compile_const_spec(pt, spec, version, app, False, "compileTeal")
+        for api in (("compileTeal", "Compilation") if i % 2 == 0 else ("compileTeal",)):
+            x = compile_const_spec(pt, spec, version, app, True, api)
+            ck.count(("consts", i, api), nontrivial=(x["outcome"] == "ok"))
+            cls = "ok" if x["outcome"] == "ok" else x.get("exc", x["outcome"])
+            want = "ok" if base["outcome"] == "ok" else base.get("exc", base["outcome"])
+            if want == "ok" and version < 3:
+                want = "TealInternalError"
+            stats[api + ":" + cls] = stats.get(api + ":" + cls, 0) + 1
+            if x["outcome"] in ("crash", "timeout") or base["outcome"] in ("crash", "timeout") or cls != want:
+                kind = "crash" if x["outcome"] in ("crash", "timeout") or base["outcome"] in ("crash", "timeout") else "acceptance"
+                bad.setdefault((kind, cls, want), []).append((spec, version, app, api, x, base))
+    for (kind, cls, want), lst in list(bad.items())[:4]:
+        if kind == "crash" and all(bad_checksum_addr_class(t[0], t[4]) for t in lst):
+            f = ck.match_known(lambda f: f["id"] == "addr-bad-checksum-assemble-crash")
+            if f is not None:
+                ck.known(f["id"], f["what"])
+                continue
+        spec, version, app, api, x, base = min(lst, key=lambda t: len(t[0]))
+
+        def still(sp):
+            y = compile_const_spec(pt, sp, version, app, True, api)
+            c2 = "ok" if y["outcome"] == "ok" else y.get("exc", y["outcome"])
+            if kind == "crash":
+                return c2 == cls
+            b2 = compile_const_spec(pt, sp, version, app, False, "compileTeal")
+            return b2["outcome"] == base["outcome"] and c2 == cls
+        small, improved, budget = list(spec), True, 400
+        while improved and budget > 0:
+            improved = False
+            for j in range(len(small)):
+                budget -= 1
+                cand = small[:j] + small[j + 1:]
+                if cand and still(cand):
+                    small, improved = cand, True
+                    break
+        what = ("%s: %s(assembleConstants=True) raised a non-PyTeal exception on a constant-dense program with template constants" % (cls, api)) if kind == "crash" else \
+               ("%s(assembleConstants=True) ends in %s where the same program without constant assembly ends in %s" % (api, cls, want))
+        ck.violation(what + " (%d programs of this class; shrunk from %d to %d constant uses)" % (len(lst), len(spec), len(small)),
+                     {"kind": kind, "const_spec": small, "version": version, "mode": "app" if app else "sig", "api": api,
+                      "result": {k_: v_ for k_, v_ in x.items() if k_ != "value"}, "python": "harness/c20.py build_const_spec(pt, const_spec)"})
+    return stats
 
 
 # ---------------------------------------------------------------------------------------------
@@ -991,6 +1212,17 @@ def replay(path):
             bad = now is None or now["outcome"] in ("crash", "timeout")
         print("still failing" if bad else "no longer failing")
         return 1 if bad else 0
+    if "const_spec" in data:
+        app = data.get("mode", "app") == "app"
+        x = compile_const_spec(pt, data["const_spec"], data["version"], app, True, data.get("api", "compileTeal"))
+        b_ = compile_const_spec(pt, data["const_spec"], data["version"], app, False, "compileTeal")
+        print("with constant assembly   :", json.dumps({k: v for k, v in x.items() if k != "value"}, default=repr)[:600])
+        print("without constant assembly:", json.dumps({k: v for k, v in b_.items() if k != "value"}, default=repr)[:300])
+        cls = lambda y: "ok" if y["outcome"] == "ok" else y.get("exc", y["outcome"])
+        want = "TealInternalError" if (cls(b_) == "ok" and data["version"] < 3) else cls(b_)
+        bad = x["outcome"] in ("crash", "timeout") or cls(x) != want
+        print("still failing" if bad else "no longer failing")
+        return 1 if bad else 0
     if "router" in data:
         mk = dict(router_cases(pt))[data["router"]]
         x = real_call(pt, lambda: mk().compile_program(version=data["version"], optimize=(pt.OptimizeOptions(scratch_slots=True) if data.get("optimize") else None)), timeout=60)
@@ -1002,7 +1234,8 @@ def replay(path):
         return 0
     cd = data["case"]
     subs = [(k, n, r, kd, eval(b)) for (k, n, r, kd, b) in cd.get("subs", [])]
-    c = C20Case(eval(cd["recipe"]), cd["version"], cd["mode"] == "app", cd["scratch_slots"], cd["frame_pointers"], subs)
+    c = C20Case(eval(cd["recipe"]), cd["version"], cd["mode"] == "app", cd["scratch_slots"], cd["frame_pointers"], subs,
+                assemble=cd.get("assemble_constants", False), reserved={eval(k): v for k, v in cd.get("reserved", [])})
     try:
         model = Model("c20")
     except RuntimeError:          # the model binary cannot be (re)built right now: replay the implementation alone
@@ -1087,6 +1320,10 @@ def main(argv):
     api_stats = api_variants(run, shapes, rng, thorough)
     ck.coverage["api_variants"] = api_stats
     ck.coverage["api_s"] = round(time.time() - t0, 1)
+
+    t0 = time.time()
+    ck.coverage["constant_dense_template_programs"] = stream_consts(run, thorough)
+    ck.coverage["consts_s"] = round(time.time() - t0, 1)
 
     # ---- (2f) complexity probes (deterministic call counts, not timings)
     t0 = time.time()
@@ -1504,6 +1741,10 @@ def replay_known(ck, run, pt, wres, cx):
         elif fid == "bytes-lone-surrogate":
             x = real_call(pt, lambda: pt.Bytes("\ud800"))
             still = x["outcome"] == "crash" and x["exc"] == "UnicodeEncodeError"
+            detail = x.get("exc", x["outcome"])
+        elif fid == "addr-bad-checksum-assemble-crash":
+            x = real_call(pt, lambda: pt.compileTeal(pt.Seq(pt.Pop(pt.Addr("A" * 58)), pt.Approve()), pt.Mode.Application, version=6, assembleConstants=True))
+            still = x["outcome"] == "crash"
             detail = x.get("exc", x["outcome"])
         elif fid == "if-typeof-exponential":
             still = bool(cx.get("typeof_exponential"))
